@@ -254,7 +254,9 @@ def run_units(prop, want_hosting_loop):
                     good = seq == ["receive", "drain", "collect"] and tok(outcome) == "collect(DRAIN)"
                     oblige(unit, "the loop ends only when no event is left, and then hands over the drained effect channel", pc, f"(and (= rcv 0) {'true' if good else 'false'})", sample, {"calls": seq})
         except (Unsupported, KeyError, IndexError, AttributeError, ValueError, TypeError) as u:
-            inconclusive(f"{unit}: encoder gap: {type(u).__name__}: {u}")
+            # the loop no longer has the shape the encoding knows: the native programs decide whether that matters
+            failed.append(f"{unit}: not in the shape the encoding knows ({type(u).__name__}: {str(u)[:120]})")
+            sample["encoder_gap"] = f"{type(u).__name__}: {u}"
         res["samples"].append(sample)
         say(f"  [{unit:>22}] paths={sample.get('paths')} obligations={len(sample['queries'])}")
 
